@@ -583,7 +583,7 @@ func directChurn(ctx *core.Ctx, ci int, provName string, g, n int) {
 	done := make(chan struct{})
 	go func() { wg.Wait(); close(done) }()
 	doc := map[string]interface{}{"provider": provName, "goroutines": g, "iterations": n, "kind": "direct-churn"}
-	if blocked, timedOut := mon.WaitQuiescent(done, 60*time.Second); timedOut {
+	if blocked, timedOut := mon.WaitQuiescent(done, 240*time.Second); timedOut {
 		atomic.StoreInt32(&c13Abort, 1)
 		if len(blocked) > 0 {
 			doc["blocked"] = blocked
@@ -642,7 +642,7 @@ func frameworkChurn(ctx *core.Ctx, ci int, provName string, g, n int, entry stri
 	go func() { wg.Wait(); close(done) }()
 	where := "churn:" + entry + ":" + provName
 	doc := map[string]interface{}{"provider": provName, "goroutines": g, "requests_each": n, "entry": entry, "kind": "framework-churn"}
-	if blocked, timedOut := mon.WaitQuiescent(done, 60*time.Second); timedOut {
+	if blocked, timedOut := mon.WaitQuiescent(done, 240*time.Second); timedOut {
 		atomic.StoreInt32(&c13Abort, 1)
 		if len(blocked) > 0 {
 			doc["blocked"] = blocked
